@@ -5,6 +5,9 @@
 //   cov_run offer IN OUT          which structures gstlearn offers / builds in which space dimension
 //   cov_run value IN OUT [start]  values K[s,p](x.a) through every public evaluation route (covariance / variogram)
 //   cov_run aniso IN OUT [start]  anisotropic + rotated structures on lattice vectors, every construction route
+//   cov_run admit IN OUT [start]  requests of shape parameters inside / at the ends of / outside the domain through
+//                                 every public route that sets the parameter: refused, clipped or accepted (and
+//                                 then what the resulting object is worth on a 1-D lattice)
 //   cov_run psd   IN OUT [start]  covariance matrices on the point sets: symmetry, smallest eigenvalue
 //                                 (Eigen, not the library's solver), on the authorised increments for
 //                                 generalised covariances
@@ -558,6 +561,98 @@ static Value psdCase(const Value& c)
   return o;
 }
 
+
+// ------------------------------------------------------------------------------------------------ admit
+#include "Covariances/ACovAnisoList.hpp"
+#include <functional>
+static Value admitCase(const Value& c)
+{
+  std::string s = c.at("s").s();
+  double req = c.at("req").d();
+  int ord = c.at("ord").i();
+  const int d = 1, n = 40;
+  const double range = 10.;
+  defineDefaultSpace(ESpaceType::RN, d);
+  SpaceRN space(d);
+  CovContext ctxt(1, d);
+  ECov type = typeOf(s);
+  MatrixSquareSymmetric sills(1); sills.setValue(0, 0, 1.);
+  std::vector<std::vector<double>> pts;
+  for (int i = 0; i < n; i++) pts.push_back({(double)i});
+  std::unique_ptr<Db> db(makeDb(d, pts));
+  typedef std::function<CovAniso*()> Maker;
+  std::vector<std::pair<std::string, Maker>> routes = {
+    {"CovAniso(type,range,param,sill,ctxt)", [&]() { return new CovAniso(type, range, req, 1., ctxt); }},
+    {"CovAniso.setParam", [&]() { std::unique_ptr<CovAniso> k(new CovAniso(type, ctxt)); k->setParam(req); k->setRangeIsotropic(range); return k.release(); }},
+    {"CovAniso.createIsotropic", [&]() { return CovAniso::createIsotropic(ctxt, type, range, 1., req); }},
+    {"CovAniso.createAnisotropic", [&]() { return CovAniso::createAnisotropic(ctxt, type, VectorDouble{range}, 1., req); }},
+    {"CovAniso.createIsotropicMulti", [&]() { return CovAniso::createIsotropicMulti(ctxt, type, range, sills, req); }},
+    {"CovAniso.createAnisotropicMulti", [&]() { return CovAniso::createAnisotropicMulti(ctxt, type, VectorDouble{range}, sills, req); }},
+    {"Model.createFromParam", [&]() { std::unique_ptr<Model> m(Model::createFromParam(type, range, 1., req, VectorDouble(), VectorDouble(), VectorDouble(), &space));
+                                       return (m && m->getCovaNumber() == 1) ? m->getCova(0)->clone() : (CovAniso*)nullptr; }},
+    {"Model.addCovFromParam", [&]() { std::unique_ptr<Model> m(Model::create(ctxt)); m->addCovFromParam(type, range, 1., req);
+                                       return m->getCovaNumber() == 1 ? m->getCova(0)->clone() : (CovAniso*)nullptr; }},
+    {"ACovAnisoList.setParam", [&]() { std::unique_ptr<Model> m(Model::createFromParam(type, range, 1., 1., VectorDouble(), VectorDouble(), VectorDouble(), &space));
+                                        m->getCovAnisoListModify()->setParam(0, req); m->getCovAnisoListModify()->setRangeIsotropic(0, range);
+                                        return m->getCova(0)->clone(); }},
+    {"CovAniso.copy.setParam", [&]() { CovAniso a(type, range, 1., 1., ctxt); std::unique_ptr<CovAniso> k(a.clone()); k->setParam(req); k->setRangeIsotropic(range); return k.release(); }},
+  };
+  Value o = Value::object();
+  o["id"] = c.at("id");
+  Value outs = Value::array();
+  for (auto& rt : routes)
+  {
+    Value r = Value::object();
+    r["route"] = Value(rt.first);
+    try
+    {
+      std::unique_ptr<CovAniso> cov(rt.second());
+      if (!cov) { r["out"] = Value("refused"); r["why"] = Value("null"); outs.push(r); continue; }
+      r["out"] = Value("set");
+      r["param"] = Value(cov->getParam());
+      r["range"] = Value(cov->getRange());
+      std::unique_ptr<Model> m(Model::create(ctxt));
+      m->addCov(cov.get());
+      MatrixRectangular K = m->evalCovMatrix(db.get(), db.get());
+      Eigen::MatrixXd A(n, n);
+      bool finite = true; double maxabs = 0;
+      for (int i = 0; i < n; i++) for (int j = 0; j < n; j++)
+      { double v = K.getValue(i, j); if (!std::isfinite(v)) finite = false; A(i, j) = v; maxabs = std::max(maxabs, std::fabs(v)); }
+      r["finite"] = Value(finite ? 1 : 0); r["maxabs"] = Value(maxabs);
+      if (finite)
+      {
+        Eigen::MatrixXd S = 0.5 * (A + A.transpose());
+        if (ord >= 0)
+        {
+          int rank = 0;
+          Eigen::MatrixXd U = monoBasis(pts, d, ord, rank);
+          Eigen::MatrixXd P = Eigen::MatrixXd::Identity(n, n) - U * U.transpose();
+          S = P * S * P; S = 0.5 * (S + S.transpose()).eval();
+        }
+        Eigen::SelfAdjointEigenSolver<Eigen::MatrixXd> es(S, Eigen::EigenvaluesOnly);
+        r["lmin"] = Value(es.eigenvalues()(0)); r["lmax"] = Value(es.eigenvalues()(n - 1));
+      }
+    }
+    catch (std::exception& e) { r["out"] = Value("refused"); r["why"] = Value(std::string(e.what())); }
+    outs.push(r);
+  }
+  // the basic function itself
+  {
+    Value r = Value::object();
+    r["route"] = Value("ACovFunc.setParam");
+    try
+    {
+      std::unique_ptr<ACovFunc> f(CovFactory::createCovFunc(type, ctxt));
+      f->setParam(req);
+      r["out"] = Value("set"); r["param"] = Value(f->getParam());
+    }
+    catch (std::exception& e) { r["out"] = Value("refused"); r["why"] = Value(std::string(e.what())); }
+    outs.push(r);
+  }
+  o["routes"] = outs;
+  return o;
+}
+
 // ------------------------------------------------------------------------------------------------ main
 int main(int argc, char** argv)
 {
@@ -599,6 +694,13 @@ int main(int argc, char** argv)
         emit(o);
       }
       else if (mode == "aniso") anisoCase(c);
+      else if (mode == "admit")
+      {
+        Value o;
+        try { o = admitCase(c); }
+        catch (std::exception& e) { o = Value::object(); o["id"] = c.at("id"); o["exception"] = Value(std::string(e.what())); }
+        emit(o);
+      }
       else if (mode == "psd")
       {
         Value o;
